@@ -38,3 +38,25 @@ Definition ex_world_forged : wcase :=
 
 Example ex_forged_rejected : exists e, fst (run_world ex_world_forged) = AErr e.
 Proof. eexists. vm_compute. reflexivity. Qed.
+
+(* non-vacuity of the termination theorem: the example store is acyclic with rank = link
+   number and at most 2 proofs per token, so Access terminates for every descriptor *)
+From Ucanto Require Import ValidatorTerm.
+From Coq Require Import ZifyN ZifyNat.
+Example ex_terminates : forall ds,
+  fst (access (wc_U ex_world) (wc_ctx ex_world) (need 2 2 + 1) ds (mkDlg 2 [1; 2])) <> AFuel.
+Proof.
+  intros ds.
+  apply (access_terminates (wc_U ex_world) (wc_ctx ex_world)
+           (fun l p H => ltac:(cbn in H; discriminate)) N.to_nat) with (K := 2%nat).
+  - intros l t p HU Hp. unfold wc_U, ex_world, ex_tokens in HU. cbn [wc_tokens alookup] in HU.
+    destruct (l =? 1) eqn:E1.
+    + inversion HU; subst. destruct Hp.
+    + destruct (l =? 2) eqn:E2; [|discriminate]. inversion HU; subst. cbn in Hp.
+      destruct Hp as [<-|[]]. apply N.eqb_eq in E2. subst. vm_compute. lia.
+  - intros l t HU. unfold wc_U, ex_world, ex_tokens in HU. cbn [wc_tokens alookup] in HU.
+    destruct (l =? 1); [inversion HU; subst; cbn; lia|].
+    destruct (l =? 2); [inversion HU; subst; cbn; lia | discriminate].
+  - lia.
+  - vm_compute. lia.
+Qed.
